@@ -1,5 +1,8 @@
 import Driver.Proto
 import Driver.Ops.Kern
+import Driver.Ops.NDArray
+import Driver.Ops.XMap
+import Driver.Ops.Grp
 /-
 Line-protocol driver.  One request per line (`<op> <args…>`), one response line per request.
 Each op family lives in its own module `Driver/Ops/*.lean` exposing `handle : List String → String`
@@ -8,7 +11,10 @@ and is registered in `handlers` below.  Stateless by design: an operation *histo
 namespace Orix.Driver
 
 def handlers : List (String × (List String → String)) := [
-  ("kern", Kern.handle)
+  ("kern", Kern.handle),
+  ("nd", ND.handle),
+  ("xmap", XMapOp.handle),
+  ("grp", Grp.handle)
 ]
 
 def step (line : String) : String :=
